@@ -182,7 +182,7 @@ pub fn compress(codec: Codec, data: &[u8]) -> Vec<u8> {
 			out
 		}
 		Codec::Xz(l) => {
-			let mut e = xz2::write::XzEncoder::new(Vec::new(), if l == 0 { 6 } else { l.min(6) as u32 });
+			let mut e = xz2::write::XzEncoder::new(Vec::new(), if l == 0 { 6 } else { l.min(9) as u32 });
 			e.write_all(data).unwrap();
 			e.finish().unwrap()
 		}
